@@ -1,7 +1,9 @@
 import GlueVerif.Lemmas.C02Encode
 /-! The un-serializer on the encoding of an acyclic graph of plain (non-generator, callback-free)
 classes: every named load succeeds, the memo table stays injective, and every restored object has
-the class and — through the memo table — the fields of the object that was saved under its name. -/
+the class and — through the memo table — the fields of the object that was saved under its name;
+an inlined record is restored as a fresh anonymous object with, recursively, the same property
+(`load_own`, shared by the three developments). -/
 namespace GlueVerif.C02
 
 /-! ### association-list facts -/
@@ -90,18 +92,25 @@ theorem prefix_getElem? {α : Type} {l₁ l₂ : List α} (hp : l₁ <+: l₂) {
     obtain ⟨hi, _⟩ := List.getElem?_eq_some_iff.mp h; exact hi
   rw [List.getElem?_append_left hi]; exact h
 
-/-! ### what a restored value must look like -/
+/-! ### heaps / states that only grow -/
 
-def RelVal (reg : Reg) (memo : List (Str × Nat)) : Val → LVal → Prop
-  | .lit n, .lit m => n = m
-  | .str s, .str t => s = t
-  | .ref p, .ref j => ∃ m, lookupName reg p = some m ∧ lookupMemo memo m = some j
-  | _, _ => False
+def HeapLe (a b : List LObj) : Prop := a.length ≤ b.length ∧ ∀ j, j < a.length → b[j]? = a[j]?
 
-def RelVals (reg : Reg) (memo : List (Str × Nat)) : List Val → List LVal → Prop
-  | [], [] => True
-  | v :: vs, l :: ls => RelVal reg memo v l ∧ RelVals reg memo vs ls
-  | _, _ => False
+theorem HeapLe.refl (a : List LObj) : HeapLe a a := ⟨Nat.le_refl _, fun _ _ => rfl⟩
+theorem HeapLe.trans {a b c : List LObj} (h1 : HeapLe a b) (h2 : HeapLe b c) : HeapLe a c :=
+  ⟨Nat.le_trans h1.1 h2.1, fun j hj => by rw [h2.2 j (Nat.lt_of_lt_of_le hj h1.1), h1.2 j hj]⟩
+
+theorem HeapLe.get {a b : List LObj} (hle : HeapLe a b) {j : Nat} {x : LObj} (hx : a[j]? = some x) : b[j]? = some x := by
+  have hj : j < a.length := by
+    obtain ⟨hj, _⟩ := List.getElem?_eq_some_iff.mp hx; exact hj
+  rw [hle.2 j hj]; exact hx
+
+theorem heapLe_append (a : List LObj) (x : LObj) : HeapLe a (a ++ [x]) :=
+  ⟨by simp, fun j hj => List.getElem?_append_left hj⟩
+
+theorem heapLe_of_prefix {a b : List LObj} (hp : a <+: b) : HeapLe a b := by
+  obtain ⟨t, rfl⟩ := hp
+  exact ⟨by simp, fun j hj => List.getElem?_append_left hj⟩
 
 def MemoLe (m m' : List (Str × Nat)) : Prop := ∀ n j, lookupMemo m n = some j → lookupMemo m' n = some j
 
@@ -117,23 +126,121 @@ theorem memoLe_cons {m : List (Str × Nat)} {n : Str} (i : Nat) (hn : lookupMemo
   · subst e; rw [hn] at hk; cases hk
   · simp only [e, if_false]; exact hk
 
-theorem RelVal.mono {reg : Reg} {m m' : List (Str × Nat)} (hle : MemoLe m m') {v : Val} {l : LVal}
-    (h : RelVal reg m v l) : RelVal reg m' v l := by
-  cases v <;> cases l <;> simp only [RelVal] at h ⊢ <;> try exact h
-  obtain ⟨k, h1, h2⟩ := h
-  exact ⟨k, h1, hle _ _ h2⟩
+/-- How the loader state evolves: the memo table and the heap only grow (existing cells are not
+touched), and a new memo entry always points to a cell that did not exist before. -/
+structure SLe (st st' : LState) : Prop where
+  memo : MemoLe st.memo st'.memo
+  heap : HeapLe st.heap st'.heap
+  fresh : ∀ e ∈ st'.memo, e ∈ st.memo ∨ st.heap.length ≤ e.2
 
-theorem RelVals.mono {reg : Reg} {m m' : List (Str × Nat)} (hle : MemoLe m m') :
-    ∀ {vs : List Val} {ls : List LVal}, RelVals reg m vs ls → RelVals reg m' vs ls
+theorem SLe.refl (st : LState) : SLe st st := ⟨MemoLe.refl _, HeapLe.refl _, fun _ he => Or.inl he⟩
+theorem SLe.trans {a b c : LState} (h1 : SLe a b) (h2 : SLe b c) : SLe a c :=
+  ⟨h1.memo.trans h2.memo, h1.heap.trans h2.heap, fun e he => by
+    rcases h2.fresh e he with x | x
+    · exact h1.fresh e x
+    · exact Or.inr (Nat.le_trans h1.heap.1 x)⟩
+
+/-! ### what a restored value must look like -/
+
+def RelVals (R : Val → LVal → Prop) : List Val → List LVal → Prop
+  | [], [] => True
+  | v :: vs, l :: ls => R v l ∧ RelVals R vs ls
+  | _, _ => False
+
+theorem RelVals.imp {R R' : Val → LVal → Prop} (himp : ∀ v l, R v l → R' v l) :
+    ∀ {vs : List Val} {ls : List LVal}, RelVals R vs ls → RelVals R' vs ls
   | [], [], _ => trivial
   | _ :: _, [], h => by simp [RelVals] at h
   | [], _ :: _, h => by simp [RelVals] at h
-  | _ :: _, _ :: _, h => ⟨RelVal.mono hle h.1, RelVals.mono hle h.2⟩
+  | _ :: _, _ :: _, h => ⟨himp _ _ h.1, RelVals.imp himp h.2⟩
+
+/-- Restored value `l` is what was saved as `v`: the same literal / string, for a named reference the
+restored object registered under the name of the referenced object, and for an inlined object (to
+nesting depth `d`) an *anonymous* cell (not in the memo table) of the same class whose fields are,
+recursively, what was saved; the cells of its own inlined objects were allocated before it. -/
+def RelV (h : Heap) (reg : Reg) (heap : List LObj) (memo : List (Str × Nat)) : Nat → Val → LVal → Prop
+  | _, .lit n, .lit m => n = m
+  | _, .str s, .str t => s = t
+  | _, .ref p, .ref j => ∃ m, lookupName reg p = some m ∧ lookupMemo memo m = some j
+  | d + 1, .own p, .own j =>
+    j ∉ memo.map Prod.snd ∧ ∃ ob lo, h[p]? = some ob ∧ heap[j]? = some lo ∧ lo.cls = ob.cls ∧
+      RelVals (RelV h reg heap memo d) (ob.fields.map (·.val)) lo.fields ∧
+      ∀ j', LVal.own j' ∈ lo.fields → j' < j
+  | _, _, _ => False
+
+/-- `RelV` only looks at the memo table and at the *anonymous* cells: it survives any step that extends
+the memo table by new cells and leaves the anonymous cells alone. -/
+theorem RelV.mono {h : Heap} {reg : Reg} {heap heap' : List LObj} {memo memo' : List (Str × Nat)}
+    (hm : MemoLe memo memo')
+    (hh : ∀ j, j < heap.length → j ∉ memo.map Prod.snd → heap'[j]? = heap[j]?)
+    (hf : ∀ e ∈ memo', e ∈ memo ∨ heap.length ≤ e.2) :
+    ∀ (d : Nat) (v : Val) (l : LVal), RelV h reg heap memo d v l → RelV h reg heap' memo' d v l
+  | d, .lit _, .lit _, hr => by simp only [RelV] at hr ⊢; exact hr
+  | d, .str _, .str _, hr => by simp only [RelV] at hr ⊢; exact hr
+  | d, .ref _, .ref _, hr => by
+    simp only [RelV] at hr ⊢
+    obtain ⟨k, h1, h2⟩ := hr
+    exact ⟨k, h1, hm _ _ h2⟩
+  | 0, .own _, .own _, hr => by simp [RelV] at hr
+  | d + 1, .own p, .own j, hr => by
+    simp only [RelV] at hr ⊢
+    obtain ⟨hnm, ob, lo, a1, a2, a3, a4, a5⟩ := hr
+    have hj : j < heap.length := by
+      obtain ⟨hj, _⟩ := List.getElem?_eq_some_iff.mp a2; exact hj
+    refine ⟨?_, ob, lo, a1, by rw [hh j hj hnm]; exact a2, a3, RelVals.imp (RelV.mono hm hh hf d) a4, a5⟩
+    intro hmem
+    obtain ⟨e, he, hej⟩ := List.mem_map.mp hmem
+    rcases hf e he with x | x
+    · exact hnm (List.mem_map.mpr ⟨e, x, hej⟩)
+    · omega
+  | _, .lit _, .str _, hr | _, .lit _, .ref _, hr | _, .lit _, .own _, hr | _, .lit _, .pending, hr
+  | _, .str _, .lit _, hr | _, .str _, .ref _, hr | _, .str _, .own _, hr | _, .str _, .pending, hr
+  | _, .ref _, .lit _, hr | _, .ref _, .str _, hr | _, .ref _, .own _, hr | _, .ref _, .pending, hr
+  | _, .own _, .lit _, hr | _, .own _, .str _, hr | _, .own _, .ref _, hr | _, .own _, .pending, hr => by
+    simp [RelV] at hr
+
+/-- the step from `st` to `st'` preserves what has been established about restored values -/
+def RelPres (h : Heap) (reg : Reg) (st st' : LState) : Prop :=
+  ∀ d v l, RelV h reg st.heap st.memo d v l → RelV h reg st'.heap st'.memo d v l
+
+theorem RelPres.refl {h : Heap} {reg : Reg} (st : LState) : RelPres h reg st st := fun _ _ _ x => x
+theorem RelPres.trans {h : Heap} {reg : Reg} {a b c : LState} (h1 : RelPres h reg a b) (h2 : RelPres h reg b c) :
+    RelPres h reg a c := fun d v l x => h2 d v l (h1 d v l x)
+
+theorem RelPres.vals {h : Heap} {reg : Reg} {st st' : LState} (hp : RelPres h reg st st') {d : Nat}
+    {vs : List Val} {ls : List LVal} (hr : RelVals (RelV h reg st.heap st.memo d) vs ls) :
+    RelVals (RelV h reg st'.heap st'.memo d) vs ls := RelVals.imp (hp d) hr
+
+theorem SLe.relPres {h : Heap} {reg : Reg} {st st' : LState} (hle : SLe st st') : RelPres h reg st st' :=
+  fun d v l hr => RelV.mono hle.memo (fun j hj _ => hle.heap.2 j hj) hle.fresh d v l hr
+
+/-- writing into a *named* cell does not disturb what hangs below inlined cells -/
+theorem relPres_setField {h : Heap} {reg : Reg} (st : LState) {i : Nat} (hi : i ∈ st.memo.map Prod.snd) (k : Nat) (x : LVal) :
+    RelPres h reg st { st with heap := setField st.heap i k x } := by
+  intro d v l hr
+  refine RelV.mono (MemoLe.refl _) ?_ (fun _ he => Or.inl he) d v l hr
+  intro j _ hnm
+  have hne : i ≠ j := fun e => hnm (e ▸ hi)
+  simp only [setField, List.getElem?_modify, hne, if_false]
+  cases st.heap[j]? <;> rfl
+
+theorem RelV.le {h : Heap} {reg : Reg} {st st' : LState} (hle : SLe st st') {d : Nat} {v : Val} {l : LVal}
+    (hr : RelV h reg st.heap st.memo d v l) : RelV h reg st'.heap st'.memo d v l :=
+  hle.relPres d v l hr
+
+theorem RelVals.le {h : Heap} {reg : Reg} {st st' : LState} (hle : SLe st st') {d : Nat} {vs : List Val} {ls : List LVal}
+    (hr : RelVals (RelV h reg st.heap st.memo d) vs ls) : RelVals (RelV h reg st'.heap st'.memo d) vs ls :=
+  hle.relPres.vals hr
 
 /-- restored object `i` is what was saved under name `n` -/
 def Good (h : Heap) (reg : Reg) (st : LState) (n : Str) (i : Nat) : Prop :=
   i < st.heap.length ∧ ∃ o ob lo, (o, n) ∈ reg ∧ h[o]? = some ob ∧ st.heap[i]? = some lo ∧
-    lo.cls = ob.cls ∧ RelVals reg st.memo (ob.fields.map (·.val)) lo.fields
+    lo.cls = ob.cls ∧ RelVals (RelV h reg st.heap st.memo h.length) (ob.fields.map (·.val)) lo.fields
+
+theorem Good.le {h : Heap} {reg : Reg} {st st' : LState} (hle : SLe st st') {n : Str} {i : Nat}
+    (hg : Good h reg st n i) : Good h reg st' n i := by
+  obtain ⟨hlt, o, ob, lo, a1, a2, a3, a4, a5⟩ := hg
+  exact ⟨Nat.lt_of_lt_of_le hlt hle.heap.1, o, ob, lo, a1, a2, hle.heap.get a3, a4, RelVals.le hle a5⟩
 
 structure LInv (h : Heap) (reg : Reg) (st : LState) : Prop where
   noCb : st.callbacks = []
@@ -144,13 +251,13 @@ structure LInv (h : Heap) (reg : Reg) (st : LState) : Prop where
   good : ∀ e ∈ st.memo, Good h reg st e.1 e.2
 
 structure LExt (st st' : LState) : Prop where
-  memo : MemoLe st.memo st'.memo
-  heap : st.heap <+: st'.heap
+  le : SLe st st'
   work : st'.working = st.working
 
-theorem LExt.refl (st : LState) : LExt st st := ⟨MemoLe.refl _, List.prefix_refl _, rfl⟩
+theorem LExt.refl (st : LState) : LExt st st := ⟨SLe.refl _, rfl⟩
 theorem LExt.trans {a b c : LState} (h1 : LExt a b) (h2 : LExt b c) : LExt a c :=
-  ⟨h1.memo.trans h2.memo, List.IsPrefix.trans h1.heap h2.heap, by rw [h2.work, h1.work]⟩
+  ⟨h1.le.trans h2.le, by rw [h2.work, h1.work]⟩
+theorem LExt.memo {a b : LState} (h : LExt a b) : MemoLe a.memo b.memo := h.le.memo
 
 theorem tryCallbacksIfIdle_noCb (obj : LState → JVal → LRes LVal) (st : LState) (hc : st.callbacks = []) :
     tryCallbacksIfIdle obj st = st := by
@@ -183,15 +290,146 @@ theorem any_cb_false (flds : List (Phase × JVal)) (hall : ∀ e ∈ flds, e.1 =
   intro e he
   rw [hall e he]; decide
 
+theorem heap_concat_get {α : Type} (l : List α) (a : α) : (l ++ [a])[l.length]? = some a := by
+  simp
+
+/-- the loader of a plain class called on an inlined record: resolve the fields, allocate, done -/
+theorem loadRec_plain_none (obj : LState → JVal → LRes LVal) (st st1 : LState) (cls : Nat)
+    (flds : List (Phase × JVal)) (vals : List LVal) (hearly : ∀ e ∈ flds, e.1 = .early)
+    (hres : resolvePhase obj .early st flds = (st1, .ok vals)) :
+    loadRec obj none st cls flds =
+      ({ st1 with heap := st1.heap ++ [{ cls := cls, fields := vals }] }, .ok st1.heap.length) := by
+  unfold loadRec
+  simp only [hres, any_late_false _ hearly, any_cb_false _ hearly, Bool.false_and, if_false, Bool.false_eq_true]
+  rw [latePhase_allEarly _ _ _ hearly]
+
+/-! ### loading an inlined sub-tree (shared by the acyclic / generator / callback developments)
+
+`I` is the development's invariant (with whatever side conditions it needs bundled in), `E` its
+extension relation, `A f q` says that fuel `f` is enough to load the *named* object `q` from a state
+satisfying `I`, `Aown f p` the same for the *inlined* object `p`. -/
+
+structure OwnCtx (h : Heap) (reg : Reg) (T : Table) (I : LState → Prop) (E : LState → LState → Prop)
+    (A Aown : Nat → Nat → Prop) : Prop where
+  refl : ∀ st, E st st
+  trans : ∀ {a b c : LState}, E a b → E b c → E a c
+  le : ∀ {a b : LState}, E a b → SLe a b
+  bound : ∀ {st : LState}, I st → ∀ e ∈ st.memo, e.2 < st.heap.length
+  alloc : ∀ {st : LState}, I st → ∀ x : LObj,
+    I { st with heap := st.heap ++ [x] } ∧ E st { st with heap := st.heap ++ [x] }
+  idle : ∀ {st : LState}, I st → ∀ obj : LState → JVal → LRes LVal, tryCallbacksIfIdle obj st = st
+  fuel2 : ∀ {f p : Nat}, Aown f p → 2 ≤ f
+  stepOwn : ∀ {f p : Nat} {ob : Obj} {g : Field} {p' : Nat}, Aown (f + 1) p → h[p]? = some ob → g ∈ ob.fields → g.val = .own p' → Aown f p'
+  stepRef : ∀ {f p : Nat} {ob : Obj} {g : Field} {q : Nat}, Aown (f + 1) p → h[p]? = some ob → g ∈ ob.fields → g.val = .ref q → A f q
+  child : ∀ f q m, A f q → (q, m) ∈ reg → ∀ st, I st →
+    ∃ st' i, object T f st (.str m) = (st', .ok (.ref i)) ∧ I st' ∧ E st st' ∧ lookupMemo st'.memo m = some i
+  /-- the class of an inlined object has a plain loader -/
+  inlEarly : ∀ {o : Nat} {ob : Obj} {g : Field} {p : Nat} {obp : Obj}, h[o]? = some ob → g ∈ ob.fields → g.val = .own p → h[p]? = some obp →
+    ∀ x ∈ obp.fields, x.phase = .early
+
+section
+variable {h : Heap} {reg : Reg} {T : Table} {I : LState → Prop} {E : LState → LState → Prop}
+  {A Aown : Nat → Nat → Prop}
+
+/-- what loading the inlined object `p` (encoded to depth `d`) with fuel `f` gives -/
+def OwnOk (h : Heap) (reg : Reg) (T : Table) (I : LState → Prop) (E : LState → LState → Prop)
+    (d : Nat) (p : Nat) (f : Nat) : Prop :=
+  ∀ st, I st → ∃ st' j, object T f st (encVal h reg d (.own p)) = (st', .ok (.own j)) ∧ I st' ∧ E st st' ∧
+    RelV h reg st'.heap st'.memo d (.own p) (.own j) ∧ j < st'.heap.length
+
+/-- the fields of an inlined object -/
+theorem own_fields (X : OwnCtx h reg T I E A Aown) (d : Nat) (p : Nat) (ob : Obj) (hob : h[p]? = some ob)
+    (f1 : Nat) (hA : Aown (f1 + 1) p) (hearly : ∀ x ∈ ob.fields, x.phase = .early)
+    (IH : ∀ p', (∃ g ∈ ob.fields, g.val = .own p') → RefsInV h reg d (.own p') → OwnOk h reg T I E d p' f1) :
+    ∀ (fs : List Field), (∀ g ∈ fs, g ∈ ob.fields) → RefsIn h reg d fs → ∀ (st : LState), I st →
+      ∃ st' vals, resolvePhase (object T f1) .early st (encFields h reg d fs) = (st', .ok vals) ∧ I st' ∧ E st st' ∧
+        RelVals (RelV h reg st'.heap st'.memo d) (fs.map (·.val)) vals ∧
+        ∀ j', LVal.own j' ∈ vals → j' < st'.heap.length
+  | [], _, _, st, hinv => ⟨st, [], rfl, hinv, X.refl _, trivial, by intro j' hj; simp at hj⟩
+  | g :: fs, hsub, hrefs, st, hinv => by
+    have hg : g ∈ ob.fields := hsub g List.mem_cons_self
+    have hph : g.phase = .early := hearly g hg
+    have hsub' : ∀ x ∈ fs, x ∈ ob.fields := fun x hx => hsub x (List.mem_cons_of_mem _ hx)
+    have hrefs' : RefsIn h reg d fs := fun x hx => hrefs x (List.mem_cons_of_mem _ hx)
+    have hrg : RefsInV h reg d g.val := hrefs g List.mem_cons_self
+    obtain ⟨f2, rfl⟩ : ∃ f2, f1 = f2 + 1 := ⟨f1 - 1, by have := X.fuel2 hA; omega⟩
+    have head : ∃ st1 v, object T (f2 + 1) st (encVal h reg d g.val) = (st1, .ok v) ∧ I st1 ∧ E st st1 ∧
+        RelV h reg st1.heap st1.memo d g.val v ∧ ∀ j', v = .own j' → j' < st1.heap.length := by
+      cases hv : g.val with
+      | lit n => exact ⟨st, .lit n, by simp only [encVal, object], hinv, X.refl _, by simp only [RelV], by intro j' hj; cases hj⟩
+      | str s =>
+        refine ⟨st, .str s, ?_, hinv, X.refl _, by simp only [RelV], by intro j' hj; cases hj⟩
+        simp only [encVal, object, (literal_roundtrip s).1, if_true, (literal_roundtrip s).2]
+      | ref q =>
+        rw [hv] at hrg
+        simp only [RefsInV] at hrg
+        obtain ⟨m, hm⟩ := hrg
+        have hqm : (q, m) ∈ reg := lookupName_some_mem hm
+        obtain ⟨st1, i, h1, h2, h3, h4⟩ := X.child (f2 + 1) q m (X.stepRef hA hob hg hv) hqm st hinv
+        refine ⟨st1, .ref i, ?_, h2, h3, ?_, by intro j' hj; cases hj⟩
+        · simp only [encVal, hm, Option.getD_some]; exact h1
+        · simp only [RelV]; exact ⟨m, hm, h4⟩
+      | own p' =>
+        rw [hv] at hrg
+        obtain ⟨st1, j, h1, h2, h3, h4, h5⟩ := IH p' ⟨g, hg, hv⟩ hrg st hinv
+        exact ⟨st1, .own j, h1, h2, h3, h4, by intro j' hj; cases hj; exact h5⟩
+    obtain ⟨st1, v, e1, inv1, ext1, rel1, own1⟩ := head
+    obtain ⟨st2, vs, e2, inv2, ext2, rel2, own2⟩ := own_fields X d p ob hob (f2 + 1) hA hearly IH fs hsub' hrefs' st1 inv1
+    refine ⟨st2, v :: vs, ?_, inv2, X.trans ext1 ext2, ⟨RelV.le (X.le ext2) rel1, rel2⟩, ?_⟩
+    · simp only [encFields, List.map_cons, resolvePhase, hph, if_true]
+      simp only [encFields] at e2
+      rw [e1]; simp only [e2]
+    · intro j' hj
+      rcases List.mem_cons.mp hj with e | e
+      · exact Nat.lt_of_lt_of_le (own1 j' e.symm) (X.le ext2).heap.1
+      · exact own2 j' e
+
+/-- **Loading an inlined sub-tree**: a fresh anonymous cell whose fields are, recursively, what was saved. -/
+theorem load_own (X : OwnCtx h reg T I E A Aown) : ∀ (d : Nat) (p : Nat) (f : Nat),
+    RefsInV h reg d (.own p) → Aown f p → (∀ ob, h[p]? = some ob → ∀ x ∈ ob.fields, x.phase = .early) →
+    OwnOk h reg T I E d p f
+  | 0, _, _, hrefs, _, _ => by simp [RefsInV] at hrefs
+  | d + 1, p, f, hrefs, hA, hearly => by
+    intro st hinv
+    simp only [RefsInV] at hrefs
+    obtain ⟨ob, hob, hrf⟩ := hrefs
+    obtain ⟨f1, rfl⟩ : ∃ f1, f = f1 + 1 := ⟨f - 1, by have := X.fuel2 hA; omega⟩
+    have hE := hearly ob hob
+    obtain ⟨st1, vals, eres, inv1, ext1, rel1, own1⟩ :=
+      own_fields X d p ob hob f1 hA hE
+        (fun p' ⟨g, hg, hv⟩ hr => load_own X d p' f1 hr (X.stepOwn hA hob hg hv)
+          (fun obp hobp => X.inlEarly hob hg hv hobp))
+        ob.fields (fun _ hg => hg) hrf st hinv
+    let i := st1.heap.length
+    let st2 : LState := { st1 with heap := st1.heap ++ [{ cls := ob.cls, fields := vals }] }
+    obtain ⟨inv2, ext2⟩ := X.alloc inv1 { cls := ob.cls, fields := vals }
+    have hearlyE : ∀ e ∈ encFields h reg d ob.fields, e.1 = .early := by
+      intro e he
+      obtain ⟨g, hg, rfl⟩ := List.mem_map.mp he
+      exact hE g hg
+    refine ⟨st2, i, ?_, inv2, X.trans ext1 ext2, ?_, by simp [st2, i]⟩
+    · rw [encVal_own h reg d p ob hob]
+      simp only [object, loadRec_plain_none _ st st1 ob.cls _ vals hearlyE eres]
+      have := X.idle inv2 (object T f1)
+      simp only [st2] at this ⊢
+      rw [this]
+    · simp only [RelV]
+      refine ⟨?_, ob, { cls := ob.cls, fields := vals }, hob, heap_concat_get _ _, rfl,
+        RelVals.le (X.le ext2) rel1, fun j' hj => own1 j' hj⟩
+      intro hmem
+      obtain ⟨e, he, hei⟩ := List.mem_map.mp hmem
+      have := X.bound inv1 e he
+      simp only [i] at hei; omega
+
+end
 
 /-! ### the setting of the round-trip theorem -/
 
 structure Ctx (h : Heap) (main : Nat) (reg : Reg) (T : Table) (rank : Nat → Nat) : Prop where
   regOk : RegOk main reg
-  tbl : ∀ o n, (o, n) ∈ reg → ∃ ob, h[o]? = some ob ∧ lookupRec T n = some (encObj reg ob) ∧ RefsIn reg ob.fields
+  tbl : ∀ o n, (o, n) ∈ reg → ∃ ob, h[o]? = some ob ∧ lookupRec T n = some (encObj h reg ob) ∧ RefsIn h reg h.length ob.fields
   early : ∀ ob ∈ h, ∀ f ∈ ob.fields, f.phase = .early
-  noOwn : NoOwn h
-  acyc : ∀ o ob, h[o]? = some ob → ∀ f ∈ ob.fields, ∀ p, f.val = .ref p → rank p < rank o
+  acyc : ∀ o ob, h[o]? = some ob → ∀ f ∈ ob.fields, ∀ p, f.val.target = some p → rank p < rank o
 
 section
 variable {h : Heap} {main : Nat} {reg : Reg} {T : Table} {rank : Nat → Nat}
@@ -201,54 +439,103 @@ def LoadsOk (h : Heap) (reg : Reg) (T : Table) (fuel : Nat) (st : LState) (n : S
   ∃ st' i, object T fuel st (.str n) = (st', .ok (.ref i)) ∧ LInv h reg st' ∧ LExt st st' ∧
     lookupMemo st'.memo n = some i
 
-theorem encFields_early (C : Ctx h main reg T rank) {ob : Obj} (hob : ob ∈ h) (fs : List Field)
-    (hsub : ∀ f ∈ fs, f ∈ ob.fields) : ∀ e ∈ encFields reg fs, e.1 = .early := by
+theorem encFields_early (C : Ctx h main reg T rank) {ob : Obj} (hob : ob ∈ h) (d : Nat) (fs : List Field)
+    (hsub : ∀ f ∈ fs, f ∈ ob.fields) : ∀ e ∈ encFields h reg d fs, e.1 = .early := by
   intro e he
   obtain ⟨f, hf, rfl⟩ := List.mem_map.mp he
   exact C.early ob hob f (hsub f hf)
 
-/-- resolving the (all early) fields of an object whose children load fine -/
-theorem resolve_fields (C : Ctx h main reg T rank) (o : Nat) (ob : Obj) (hob : h[o]? = some ob) (hrefs : RefsIn reg ob.fields)
-    (f' : Nat)
-    (IHc : ∀ p m, (p, m) ∈ reg → rank p < rank o → ∀ st, LInv h reg st →
-      (∀ w ∈ st.working, ∃ q, (q, w) ∈ reg ∧ rank p < rank q) → LoadsOk h reg T (f' + 1) st m) :
-    ∀ (fs : List Field), (∀ g ∈ fs, g ∈ ob.fields) → ∀ (st : LState), LInv h reg st →
+/-- the statement proved by induction on the fuel: a registered object of small enough rank loads -/
+def NamedOk (h : Heap) (reg : Reg) (T : Table) (rank : Nat → Nat) (f : Nat) : Prop :=
+  ∀ o n, (o, n) ∈ reg → rank o + 1 < f → ∀ st, LInv h reg st →
+    (∀ w ∈ st.working, ∃ q, (q, w) ∈ reg ∧ rank o < rank q) → LoadsOk h reg T f st n
+
+/-- the generic interface, instantiated for the acyclic development: the working set is fixed (`W0`),
+all objects under construction have rank `≥ B` -/
+theorem ownCtx_acyclic (C : Ctx h main reg T rank) (F : Nat) (IHn : ∀ f ≤ F, NamedOk h reg T rank f)
+    (W0 : List Str) (B : Nat) (hW : ∀ w ∈ W0, ∃ q, (q, w) ∈ reg ∧ B ≤ rank q) :
+    OwnCtx h reg T (fun st => LInv h reg st ∧ st.working = W0) (fun a b => LExt a b)
+      (fun f q => f ≤ F ∧ rank q + 1 < f ∧ rank q < B) (fun f p => f ≤ F ∧ rank p + 1 < f ∧ rank p ≤ B) where
+  refl := LExt.refl
+  trans := LExt.trans
+  le := fun e => e.le
+  bound := fun hi e he => (hi.1.good e he).1
+  alloc := by
+    intro st hi x
+    have hle : SLe st { st with heap := st.heap ++ [x] } :=
+      ⟨MemoLe.refl _, heapLe_append _ _, fun _ he => Or.inl he⟩
+    refine ⟨⟨⟨hi.1.noCb, hi.1.noPend, hi.1.keysNodup, hi.1.valsNodup, hi.1.disj, ?_⟩, hi.2⟩, ⟨hle, rfl⟩⟩
+    intro e he
+    exact (hi.1.good e he).le hle
+  idle := fun hi obj => tryCallbacksIfIdle_noCb obj _ hi.1.noCb
+  fuel2 := fun hA => by omega
+  stepOwn := by
+    intro f p ob g p' hA hob hg hv
+    have := C.acyc p ob hob g hg p' (by rw [hv]; rfl)
+    exact ⟨by omega, by omega, by omega⟩
+  stepRef := by
+    intro f p ob g q hA hob hg hv
+    have := C.acyc p ob hob g hg q (by rw [hv]; rfl)
+    exact ⟨by omega, by omega, by omega⟩
+  child := by
+    intro f q m hA hqm st hi
+    obtain ⟨st', i, h1, h2, h3, h4⟩ := IHn f hA.1 q m hqm hA.2.1 st hi.1 (by
+      intro w hw
+      rw [hi.2] at hw
+      obtain ⟨q', hq1, hq2⟩ := hW w hw
+      exact ⟨q', hq1, by omega⟩)
+    exact ⟨st', i, h1, ⟨h2, by rw [h3.work, hi.2]⟩, h3, h4⟩
+  inlEarly := by
+    intro o ob g p obp _ _ _ hobp x hx
+    exact C.early obp (List.mem_of_getElem? hobp) x hx
+
+/-- resolving the (all early) fields of a named object whose children load fine -/
+theorem resolve_fields (C : Ctx h main reg T rank) (o : Nat) (ob : Obj) (hob : h[o]? = some ob)
+    (f' : Nat) (hfo : rank o + 1 < f' + 1 + 1) (IHn : ∀ f ≤ f' + 1, NamedOk h reg T rank f) :
+    ∀ (fs : List Field), (∀ g ∈ fs, g ∈ ob.fields) → RefsIn h reg h.length fs → ∀ (st : LState), LInv h reg st →
       (∀ w ∈ st.working, ∃ q, (q, w) ∈ reg ∧ rank o ≤ rank q) →
-      ∃ st' vals, resolvePhase (object T (f' + 1)) .early st (encFields reg fs) = (st', .ok vals) ∧
-        LInv h reg st' ∧ LExt st st' ∧ RelVals reg st'.memo (fs.map (·.val)) vals
-  | [], _, st, hinv, _ => ⟨st, [], rfl, hinv, LExt.refl _, trivial⟩
-  | g :: fs, hsub, st, hinv, hw => by
+      ∃ st' vals, resolvePhase (object T (f' + 1)) .early st (encFields h reg h.length fs) = (st', .ok vals) ∧
+        LInv h reg st' ∧ LExt st st' ∧ RelVals (RelV h reg st'.heap st'.memo h.length) (fs.map (·.val)) vals
+  | [], _, _, st, hinv, _ => ⟨st, [], rfl, hinv, LExt.refl _, trivial⟩
+  | g :: fs, hsub, hrefs, st, hinv, hw => by
     have hg : g ∈ ob.fields := hsub g List.mem_cons_self
     have hph : g.phase = .early := C.early ob (List.mem_of_getElem? hob) g hg
     have hsub' : ∀ x ∈ fs, x ∈ ob.fields := fun x hx => hsub x (List.mem_cons_of_mem _ hx)
+    have hrefs' : RefsIn h reg h.length fs := fun x hx => hrefs x (List.mem_cons_of_mem _ hx)
+    have hrg : RefsInV h reg h.length g.val := hrefs g List.mem_cons_self
     -- the head
-    have head : ∃ st1 v, object T (f' + 1) st (encVal reg g.val) = (st1, .ok v) ∧ LInv h reg st1 ∧ LExt st st1 ∧
-        RelVal reg st1.memo g.val v := by
+    have head : ∃ st1 v, object T (f' + 1) st (encVal h reg h.length g.val) = (st1, .ok v) ∧ LInv h reg st1 ∧ LExt st st1 ∧
+        RelV h reg st1.heap st1.memo h.length g.val v := by
       cases hv : g.val with
-      | lit n => exact ⟨st, .lit n, rfl, hinv, LExt.refl _, rfl⟩
+      | lit n => exact ⟨st, .lit n, by simp only [encVal, object], hinv, LExt.refl _, by simp only [RelV]⟩
       | str s =>
-        refine ⟨st, .str s, ?_, hinv, LExt.refl _, rfl⟩
+        refine ⟨st, .str s, ?_, hinv, LExt.refl _, by simp only [RelV]⟩
         simp only [encVal, object, (literal_roundtrip s).1, if_true, (literal_roundtrip s).2]
       | ref p =>
-        obtain ⟨m, hm⟩ := hrefs g hg p hv
+        rw [hv] at hrg
+        simp only [RefsInV] at hrg
+        obtain ⟨m, hm⟩ := hrg
         have hpm : (p, m) ∈ reg := lookupName_some_mem hm
-        have hrk : rank p < rank o := C.acyc o ob hob g hg p hv
-        obtain ⟨st1, i, h1, h2, h3, h4⟩ := IHc p m hpm hrk st hinv (fun w hwm => by
+        have hrk : rank p < rank o := C.acyc o ob hob g hg p (by rw [hv]; rfl)
+        obtain ⟨st1, i, h1, h2, h3, h4⟩ := IHn (f' + 1) (Nat.le_refl _) p m hpm (by omega) st hinv (fun w hwm => by
           obtain ⟨q, hq1, hq2⟩ := hw w hwm; exact ⟨q, hq1, by omega⟩)
-        refine ⟨st1, .ref i, ?_, h2, h3, ⟨m, hm, h4⟩⟩
-        simp only [encVal, hm, Option.getD_some]; exact h1
-      | own p => exact absurd hv (C.noOwn ob (List.mem_of_getElem? hob) g hg p)
+        refine ⟨st1, .ref i, ?_, h2, h3, ?_⟩
+        · simp only [encVal, hm, Option.getD_some]; exact h1
+        · simp only [RelV]; exact ⟨m, hm, h4⟩
+      | own p =>
+        rw [hv] at hrg
+        have hrk : rank p < rank o := C.acyc o ob hob g hg p (by rw [hv]; rfl)
+        have X := ownCtx_acyclic C (f' + 1) IHn st.working (rank o) hw
+        obtain ⟨st1, j, h1, h2, h3, h4, _⟩ := load_own X h.length p (f' + 1) hrg ⟨Nat.le_refl _, by omega, by omega⟩
+          (fun obp hobp x hx => C.early obp (List.mem_of_getElem? hobp) x hx) st ⟨hinv, rfl⟩
+        exact ⟨st1, .own j, h1, h2.1, h3, h4⟩
     obtain ⟨st1, v, e1, inv1, ext1, rel1⟩ := head
-    obtain ⟨st2, vs, e2, inv2, ext2, rel2⟩ := resolve_fields C o ob hob hrefs f' IHc fs hsub' st1 inv1 (by
+    obtain ⟨st2, vs, e2, inv2, ext2, rel2⟩ := resolve_fields C o ob hob f' hfo IHn fs hsub' hrefs' st1 inv1 (by
       rw [ext1.work]; exact hw)
-    refine ⟨st2, v :: vs, ?_, inv2, ext1.trans ext2, ⟨RelVal.mono ext2.memo rel1, rel2⟩⟩
+    refine ⟨st2, v :: vs, ?_, inv2, ext1.trans ext2, ⟨RelV.le ext2.le rel1, rel2⟩⟩
     simp only [encFields, List.map_cons, resolvePhase, hph, if_true]
     simp only [encFields] at e2
     rw [e1]; simp only [e2]
-
-
-theorem heap_concat_get {α : Type} (l : List α) (a : α) : (l ++ [a])[l.length]? = some a := by
-  simp
 
 theorem object_named_unfold (T : Table) (f : Nat) (st : LState) (s : Str) (cls : Nat) (flds : List (Phase × JVal))
     (hlit : isLiteralStr s = false) (hm : lookupMemo st.memo s = none)
@@ -261,14 +548,17 @@ theorem object_named_unfold (T : Table) (f : Nat) (st : LState) (s : Str) (cls :
   simp only [object, hlit, hm, hr, hc, Bool.false_eq_true, if_false]
   rfl
 
-/-- **Loading a registered name succeeds** (acyclic, plain classes) and keeps the invariant. -/
-theorem load_named (C : Ctx h main reg T rank) : ∀ (r : Nat) (o : Nat) (n : Str), rank o < r → (o, n) ∈ reg →
-    ∀ (f : Nat), r < f → ∀ (st : LState), LInv h reg st →
-      (∀ w ∈ st.working, ∃ q, (q, w) ∈ reg ∧ rank o < rank q) → LoadsOk h reg T f st n
-  | 0, _, _, hr, _, _, _, _, _, _ => absurd hr (Nat.not_lt_zero _)
-  | r + 1, o, n, hr, hon, f, hf, st, hinv, hw => by
-    obtain ⟨f0, rfl⟩ : ∃ f0, f = f0 + 1 := ⟨f - 1, by omega⟩
-    obtain ⟨f', rfl⟩ : ∃ f', f0 = f' + 1 := ⟨f0 - 1, by omega⟩
+/-- **Loading a registered name succeeds** (acyclic, plain classes, inlined records) and keeps the invariant. -/
+theorem load_named (C : Ctx h main reg T rank) : ∀ (F : Nat), ∀ f ≤ F, NamedOk h reg T rank f
+  | 0, f, hf => by
+    intro o n _ hr; omega
+  | F + 1, f, hf => by
+    rcases Nat.lt_or_ge f (F + 1) with hlt | hge
+    · exact load_named C F f (by omega)
+    have hfe : f = F + 1 := by omega
+    subst hfe
+    intro o n hon hr st hinv hw
+    obtain ⟨f', rfl⟩ : ∃ f', F = f' + 1 := ⟨F - 1, by omega⟩
     have hlit : isLiteralStr n = false := C.regOk.notLiteral (o, n) hon
     unfold LoadsOk
     cases hmemo : lookupMemo st.memo n with
@@ -285,10 +575,6 @@ theorem load_named (C : Ctx h main reg T rank) : ∀ (r : Nat) (o : Nat) (n : St
         have := C.regOk.obj_unique hon hq1
         subst this; omega
       have hcont : st.working.contains n = false := by simpa using hnw
-      -- children
-      have IHc : ∀ p m, (p, m) ∈ reg → rank p < rank o → ∀ st, LInv h reg st →
-          (∀ w ∈ st.working, ∃ q, (q, w) ∈ reg ∧ rank p < rank q) → LoadsOk h reg T (f' + 1) st m :=
-        fun p m hpm hrk st' hinv' hw' => load_named C r p m (by omega) hpm (f' + 1) (by omega) st' hinv' hw'
       let st1 : LState := { st with working := n :: st.working }
       have inv1 : LInv h reg st1 := by
         refine ⟨hinv.noCb, hinv.noPend, hinv.keysNodup, hinv.valsNodup, ?_, hinv.good⟩
@@ -302,8 +588,8 @@ theorem load_named (C : Ctx h main reg T rank) : ∀ (r : Nat) (o : Nat) (n : St
         · exact ⟨o, by rw [e]; exact hon, Nat.le_refl _⟩
         · obtain ⟨q, hq1, hq2⟩ := hw w e; exact ⟨q, hq1, by omega⟩
       obtain ⟨st2, vals, eres, inv2, ext2, rel2⟩ :=
-        resolve_fields C o ob hob hrefs f' IHc ob.fields (fun _ hg => hg) st1 inv1 hw1
-      have hearly := encFields_early C hobm ob.fields (fun _ hg => hg)
+        resolve_fields C o ob hob f' hr (load_named C (f' + 1)) ob.fields (fun _ hg => hg) hrefs st1 inv1 hw1
+      have hearly := encFields_early C hobm h.length ob.fields (fun _ hg => hg)
       have hn2 : lookupMemo st2.memo n = none := by
         apply inv2.disj; rw [ext2.work]; exact List.mem_cons_self
       have hwork2 : st2.working = n :: st.working := ext2.work
@@ -313,7 +599,12 @@ theorem load_named (C : Ctx h main reg T rank) : ∀ (r : Nat) (o : Nat) (n : St
         { memo := (n, i) :: st2.memo, working := st.working,
           heap := st2.heap ++ [{ cls := ob.cls, fields := vals }],
           callbacks := st2.callbacks, pend := st2.pend }
-      have hle : MemoLe st2.memo st3.memo := memoLe_cons i hn2
+      have hle : SLe st2 st3 := by
+        refine ⟨memoLe_cons i hn2, heapLe_append _ _, ?_⟩
+        intro e he
+        rcases List.mem_cons.mp he with e1 | e1
+        · right; rw [e1]; exact Nat.le_refl _
+        · exact Or.inl e1
       have inv3 : LInv h reg st3 := by
         refine ⟨inv2.noCb, inv2.noPend, ?_, ?_, ?_, ?_⟩
         · simp only [st3, List.map_cons, List.nodup_cons]
@@ -332,27 +623,21 @@ theorem load_named (C : Ctx h main reg T rank) : ∀ (r : Nat) (o : Nat) (n : St
         · intro e he
           rcases List.mem_cons.mp he with e1 | e1
           · subst e1
-            refine ⟨by simp [st3, i], o, ob, { cls := ob.cls, fields := vals }, hon, hob, ?_, rfl, RelVals.mono hle rel2⟩
+            refine ⟨by simp [st3, i], o, ob, { cls := ob.cls, fields := vals }, hon, hob, ?_, rfl, RelVals.le hle rel2⟩
             simp only [st3, i]; exact heap_concat_get _ _
-          · obtain ⟨hlt, o', ob', lo', a1, a2, a3, a4, a5⟩ := inv2.good e e1
-            refine ⟨by simp only [st3, List.length_append, List.length_cons, List.length_nil]; omega,
-              o', ob', lo', a1, a2, ?_, a4, RelVals.mono hle a5⟩
-            simp only [st3]; rw [List.getElem?_append_left hlt]; exact a3
-      have ext3 : LExt st st3 := by
-        refine ⟨?_, ?_, rfl⟩
-        · exact (ext2.memo).trans hle
-        · exact List.IsPrefix.trans ext2.heap (List.prefix_append _ _)
+          · exact (inv2.good e e1).le hle
+      have ext3 : LExt st st3 := ⟨(show SLe st st2 from ⟨ext2.le.memo, ext2.le.heap, ext2.le.fresh⟩).trans hle, rfl⟩
       refine ⟨st3, i, ?_, inv3, ext3, by simp [st3, lookupMemo]⟩
       -- unfold the computation
-      have hload : loadRec (object T (f' + 1)) (some n) st1 ob.cls (encFields reg ob.fields) = (st3, .ok i) := by
+      have hload : loadRec (object T (f' + 1)) (some n) st1 ob.cls (encFields h reg h.length ob.fields) = (st3, .ok i) := by
         unfold loadRec
         simp only [eres, any_late_false _ hearly, any_cb_false _ hearly, Bool.false_and,
           if_false, Bool.false_eq_true]
         rw [latePhase_allEarly _ _ _ hearly]
         simp only [st3, i, hwork2, List.erase_cons_head]
-      rw [object_named_unfold T (f' + 1) st n ob.cls (encFields reg ob.fields) hlit hmemo hrec hcont]
+      rw [object_named_unfold T (f' + 1) st n ob.cls (encFields h reg h.length ob.fields) hlit hmemo hrec hcont]
       have hload' : loadRec (object T (f' + 1)) (some n) { st with working := n :: st.working } ob.cls
-          (encFields reg ob.fields) = (st3, .ok i) := hload
+          (encFields h reg h.length ob.fields) = (st3, .ok i) := hload
       rw [hload']
       have herase : st3.working.erase n = st3.working := List.erase_of_not_mem hnw
       have hst : ({ st3 with working := st3.working.erase n } : LState) = st3 := by rw [herase]
